@@ -512,7 +512,15 @@ fn check_program(p: &Program, single: bool, seed: u64, out: &mut ChunkOut, keep_
     } else if let Some((id, m, label, ins)) = first_err {
         out.c("programs_never_ok", 1);
         // a program that panics is reported as such (oracle 1), not a second time by oracle 3
-        if single && n_panics == 0 {
+        // Oracle 3 is about ARGUMENTS THAT DO NOT FIT (type / shape / arity problems that type inference should have
+        // rejected). Two error classes are admissible runtime errors in the sense of the property statement and are
+        // counted, not flagged: an operation the plain evaluator does not implement (Shard*: "Not implemented"), and
+        // the data-dependent failure of cuckoo hashing (documented as a runtime outcome of CuckooHash).
+        let admissible_runtime = m.contains("Not implemented") || m.contains("Cuckoo hashing failed");
+        if single && n_panics == 0 && admissible_runtime {
+            out.c("programs_never_ok_with_admissible_runtime_error", 1);
+        }
+        if single && n_panics == 0 && !admissible_runtime {
             let opn = if id == usize::MAX { last_op.clone() } else { op_name(&node_ops[id]) };
             out.viol(
                 format!("C09:{}:accepted-but-never-evaluates:{}{}", opn, stable_err(&m), never_eval_class(&p.steps[0].op, &in_types)),
